@@ -48,7 +48,8 @@ ASSUMPTIONS = [
     'independence is asserted in simulated time: a request for another meta tile completes while the holder is stalled',
 ]
 
-BACKENDS = [({'type': 'file', 'layout': 'tc'}, 3), ({'type': 'file', 'layout': 'tms'}, 1), ({'type': 'file', 'layout': 'quadkey'}, 1),
+BACKENDS = [({'type': 'file', 'layout': 'tc'}, 3), ({'type': 'file', 'layout': 'tc', 'link': 'symlink'}, 2),
+            ({'type': 'file', 'layout': 'tms', 'link': 'hardlink'}, 1), ({'type': 'file', 'layout': 'tms'}, 1), ({'type': 'file', 'layout': 'quadkey'}, 1),
             ({'type': 'file', 'layout': 'arcgis'}, 1), ({'type': 'compact', 'version': 1}, 3), ({'type': 'compact', 'version': 2}, 3)]
 LOCKDIR = '/simfs/locks'
 
@@ -132,7 +133,7 @@ def gen(t, tier):
           'minimize': bool(t.chance(0.25)) and not bulk, 'bulk': bulk, 'creators': t.pick([1, 1, 2, 3]),
           'policy': t.pick([['sticky', 0.1], ['sticky', 0.3], ['sticky', 0.6], ['random']]), 'mode': mode,
           'bufsize': t.pick([4096, 8192])}
-    if sc['backend']['type'] == 'compact' or sc['backend'].get('layout') in ('tc', 'tms'):
+    if (sc['backend']['type'] == 'compact' or sc['backend'].get('layout') in ('tc', 'tms')) and not sc['backend'].get('link'):
         if not bulk and t.chance(0.3):
             # full stack: WSGI application from the real loader, requests through TMS/WMTS/KML/WMS, simulated HTTP upstream
             sc['stack'] = 'wsgi'
@@ -400,7 +401,10 @@ def _run_tm(sc, tape):
     name = C.backend_name(sc['backend'])
     w = World(tape, policy=tuple(sc['policy']), step_cap=400000)
     sched = w.sched
-    shared = {'log': [], 'gen': 0}
+    # linked single-colour tiles: the upstream paints every third diagonal of tiles in one constant colour, different
+    # tiles then share one file under single_color_tiles/ (written without a tile lock of its own)
+    ocean = bool(sc['backend'].get('link'))
+    shared = {'log': [], 'gen': 0, 'ocean': ocean}
     stall_done = [False]
     faults = {}
 
@@ -444,7 +448,7 @@ def _run_tm(sc, tape):
                         if tile.source is None:
                             rec['tiles'].append((tuple(c), False, None, 'no image in the response'))
                             continue
-                        ok, g, msg = U.check_tile_image(tile.source.as_image(), c)
+                        ok, g, msg = U.check_tile_image(tile.source.as_image(), c, ocean=ocean)
                         rec['tiles'].append((tuple(c), ok, g, msg))
                 except (SimAbort, SimCrash):
                     raise
@@ -560,7 +564,7 @@ def _oracle(sc, w, mode, name, outcome, responses, shared, killed, sched, grid):
                     continue
                 return {'sig': 'C08:wrong-response:%s:%s' % (mode, name),
                         'msg': 'response of %s for tile %s is wrong: %s' % (r['client'], coord, msg)}
-            if not any(e['gen'] & 255 == g and U.covers(e['bbox'], coord) for e in ok_fetches):
+            if g is not None and not any(e['gen'] & 255 == g and U.covers(e['bbox'], coord) for e in ok_fetches):
                 return {'sig': 'C08:unattributable-response:%s:%s' % (mode, name),
                         'msg': 'tile %s served to %s carries generation %d which no successful fetch covering it has' % (
                             coord, r['client'], g)}
@@ -576,13 +580,13 @@ def _oracle(sc, w, mode, name, outcome, responses, shared, killed, sched, grid):
             return {'sig': 'C08:cache-unreadable:%s:%s' % (mode, name), 'msg': 'reading %s back raised %r' % (coord, ex)}
         if found:
             try:
-                ok, g, msg = U.check_tile_image(t.source.as_image(), coord)
+                ok, g, msg = U.check_tile_image(t.source.as_image(), coord, ocean=bool(shared.get('ocean')))
             except Exception as ex:
                 ok, g, msg = False, None, 'not a decodable image: %r' % (ex,)
             if not ok:
                 return {'sig': 'C08:wrong-tile-in-cache:%s:%s' % (mode, name),
                         'msg': 'cache holds a wrong image for %s: %s' % (coord, msg)}
-            if not any(e['gen'] & 255 == g and U.covers(e['bbox'], coord) for e in log if e['ok'] is not False):
+            if g is not None and not any(e['gen'] & 255 == g and U.covers(e['bbox'], coord) for e in log if e['ok'] is not False):
                 return {'sig': 'C08:unattributable-tile-in-cache:%s:%s' % (mode, name),
                         'msg': 'cached tile %s carries generation %d of no fetch covering it' % (coord, g)}
             present[coord] = g
@@ -642,6 +646,8 @@ def _raw_walk(sc, w, cache, present):
             if not p.startswith('/cache/') or val is None:
                 continue
             if '.tmp-' in p:
+                continue
+            if b.get('link') and p.startswith('/cache/single_color_tiles/'):
                 continue
             if p not in known:
                 return 'file %s in the cache directory is not a tile of the grid that the cache API reports' % p
